@@ -1,5 +1,15 @@
 use crate::*;
 
+// Both sides of an instantiated equation (and their syntactic versions), see `EGraph::instantiate_both`.
+pub(crate) struct Instantiated {
+    a: AppliedId,
+    b: AppliedId,
+    #[allow(unused)]
+    syn_a: AppliedId,
+    #[allow(unused)]
+    syn_b: AppliedId,
+}
+
 impl<L: Language, N: Analysis<L>> EGraph<L, N> {
     pub fn union(&mut self, l: &AppliedId, r: &AppliedId) -> bool {
         self.union_justified(l, r, None)
@@ -23,8 +33,19 @@ impl<L: Language, N: Analysis<L>> EGraph<L, N> {
         from_pat: &Pattern<L>,
         to_pat: &Pattern<L>,
         subst: &Subst,
-        #[allow(unused)] justification: Option<String>,
+        justification: Option<String>,
     ) -> bool {
+        let inst = self.instantiate_both(from_pat, to_pat, subst);
+        self.union_instantiated(inst, justification)
+    }
+
+    // Instantiates both sides of an equation, without uniting them yet.
+    pub(crate) fn instantiate_both(
+        &mut self,
+        from_pat: &Pattern<L>,
+        to_pat: &Pattern<L>,
+        subst: &Subst,
+    ) -> Instantiated {
         // Both sides have to mention the same slots for the redundant arguments of the substituted classes.
         // Otherwise the explicit equation below is no instance of `from_pat = to_pat`.
         #[cfg(feature = "explanations")]
@@ -36,10 +57,19 @@ impl<L: Language, N: Analysis<L>> EGraph<L, N> {
         let a = pattern_subst(self, from_pat, subst);
         let b = pattern_subst(self, to_pat, subst);
 
-        #[allow(unused)]
         let syn_a = self.synify_app_id(a.clone());
-        #[allow(unused)]
         let syn_b = self.synify_app_id(b.clone());
+
+        Instantiated { a, b, syn_a, syn_b }
+    }
+
+    pub(crate) fn union_instantiated(
+        &mut self,
+        inst: Instantiated,
+        #[allow(unused)] justification: Option<String>,
+    ) -> bool {
+        #[allow(unused)]
+        let Instantiated { a, b, syn_a, syn_b } = inst;
 
         let proof = ghost!(self.prove_explicit(&syn_a, &syn_b, justification));
 
